@@ -2,7 +2,7 @@
    The extracted OCaml driver and the in-Coq replays both call only this. *)
 From Coq Require Import List ZArith NArith Bool.
 From AG Require Import Base.Val Base.Sort Str.MetaVar Str.AnB Str.Substring
-  Rewrite.Indent Rewrite.Template Tree.Tree Tree.Wf Match.MatchNode Match.Prefilter Rule.Rule Rule.Kinds Rule.Traversal Rule.Scan Rule.Eval Rule.Sem Rewrite.Splice Rewrite.EditDoc Front.JsonPrint Front.Lsp Front.Select Front.Load.
+  Rewrite.Indent Rewrite.Template Tree.Tree Tree.Wf Match.MatchNode Match.Prefilter Rule.Rule Rule.Kinds Rule.Traversal Rule.Scan Rule.Eval Rule.Sem Rewrite.Splice Rewrite.EditDoc Front.JsonPrint Front.Lsp Front.Select Front.Load Str.Case.
 Import ListNotations.
 Local Open Scope Z_scope.
 
@@ -257,6 +257,16 @@ Definition case_globals (v : val) : val :=
   | OrderFuel => FUEL_ERR
   end.
 
+(* 51: (((cp up lo) ...) (opt (separator ids))) -> the byte ranges `split` slices: (0 ((a b) ...)) | (1) panic;
+       separator ids: 0 caseChange, 1 dash, 2 dot, 3 slash, 4 space, 5 underscore *)
+Definition case_split (v : val) : val :=
+  let s := gList (fun c => {| cp := gN (gNth 0 c); up := gB (gNth 1 c); lo := gB (gNth 2 c) |}) (gNth 0 v) in
+  let gsep (x : val) : sep := match gZ x with 0%Z => CaseChange | 1%Z => Dash | 2%Z => Dot | 3%Z => Slash | 4%Z => Space | _ => Underscore end in
+  match Case.split s (gOpt (gList gsep) (gNth 1 v)) with
+  | Some rs => VL [VZ 0; VL (map (fun r => VL [vNat (fst r); vNat (snd r)]) rs)]
+  | None => VL [VZ 1]
+  end.
+
 Definition run_case (fid : Z) (v : val) : val :=
   match fid with
   | 1 => v_metavar (extract_meta_var (gN (gNth 0 v)) (gS (gNth 1 v)))
@@ -289,6 +299,7 @@ Definition run_case (fid : Z) (v : val) : val :=
   | 48 => case_load v
   | 49 => case_topo v
   | 50 => case_globals v
+  | 51 => case_split v
   (* 41: (src start end before after) -> display_context: (leading-start trailing-end lines-above) *)
   | 41 => let d := display_context (gS (gNth 0 v)) (gNat (gNth 1 v)) (gNat (gNth 2 v)) (gNat (gNth 3 v)) (gNat (gNth 4 v)) in
           VL [vNat (dc_lead d); vNat (dc_trail d); vNat (dc_offset d)]
